@@ -4,7 +4,7 @@
 From Coq Require Import List NArith Bool Arith Sorted.
 From Coq Require Import Strings.Byte.
 Require Import BS.Bytes BS.Common BS.Api BS.Layout BS.Format BS.FormatFacts BS.Spec BS.SpecStep.
-Require Import BS.FS BS.FSFacts BS.Meta BS.MetaFacts BS.Header BS.Reader BS.ReaderFacts BS.Index BS.Data BS.DataFacts BS.Seek BS.Series BS.SeriesFacts.
+Require Import BS.FS BS.FSFacts BS.Meta BS.MetaFacts BS.Header BS.Reader BS.ReaderFacts BS.Index BS.Data BS.DataFacts BS.Seek BS.Series BS.SeriesFacts BS.World BS.WorldFacts.
 Import ListNotations.
 
 (* (F) codec core, every payload size, every u64 timestamp, every payload byte pattern, every length *)
@@ -41,9 +41,33 @@ Theorem C01_reader_automaton_is_reference_decoder :
 Proof. exact sim_lines. Qed.
 Print Assumptions C01_reader_automaton_is_reference_decoder.
 
-(* (I) appends write exactly the reference encoding (see C15), so the data region of a series that
-   received the accepted lines l is encode p l: RepH is the invariant, established in props/C03.v *)
+(* (I) END TO END on the model: create a series (any name, payload size, user header, callback), append
+   any well-formed list of lines, read everything back: the result is exactly that list. For every
+   payload size, every series of u64 timestamps, every payload byte pattern, every file length
+   (the chunked reader is covered by the theorem above for any number of buffers). *)
+Theorem C01_roundtrip : forall fs name p hdr cb0 l,
+  fs_mem fs (name ++ ext_data) = false -> fs_mem fs (name ++ ext_index) = false ->
+  (len (params_to_text BSgen.Consts.version (N.of_nat p) ++ hdr) <= 65535)%N ->
+  wf_series p l -> l <> [] ->
+  exists w', run {| w_fs := fs; w_h := None |}
+                 (ONew name (N.of_nat p) hdr [] cb0 :: push_ops l ++ [OReadAll Unb Unb])
+             = (w', ROpened (N.of_nat p) hdr :: map (fun _ => RUnit) l ++ [RLines l]).
+Proof. exact session_roundtrip. Qed.
+Print Assumptions C01_roundtrip.
+
+(* a full read of an open series holding l returns l (the invariant RepH is established by create and
+   kept by appends: props/C03.v) *)
+Theorem C01_read_all_under_invariant : forall fs s p hdr ihdr l,
+  RepH fs s p hdr ihdr l -> l <> [] -> read_all s Unb Unb fs = (fs, Ok l).
+Proof. exact read_all_full_ok. Qed.
+Print Assumptions C01_read_all_under_invariant.
+(* partial: the same after reopen needs the open theorem (C04). *)
 
 (* non-vacuity *)
 Example C01_nonvacuous : wf_series 2 [(5%N, [xff; xff]); (70000%N, ["001"; "002"]%byte)].
 Proof. split; repeat constructor; cbn; try reflexivity. Qed.
+(* the premises of C01_roundtrip are satisfiable: empty file system, name "s", payload size 2 *)
+Example C01_roundtrip_premises :
+  fs_mem [] (["s"]%byte ++ ext_data) = false /\ fs_mem [] (["s"]%byte ++ ext_index) = false
+  /\ (len (params_to_text BSgen.Consts.version 2 ++ []) <= 65535)%N.
+Proof. repeat split. vm_compute. discriminate. Qed.
